@@ -239,11 +239,15 @@ def model_compose_execs(limit, seed):
     8 bytes, leaf capacities as in the model"""
     from . import models
     out = []
+    # segregators (seg2: 32 B; seg3: 16 B / 64 B; seg_fb: 32 B over a fallback; seg_n: 24 B, first leaf without array
+    # members): the model routes by the request alone, leaf capacities 48 / 80 / 800 bytes
     for cfgname, comp in (("MCCompose_gen_fb.cfg", "fb"), ("MCCompose_gen_fbn.cfg", "fb_n"), ("MCCompose_gen_nest.cfg", "fb_nest"),
-                          ("MCCompose_gen_nest2.cfg", "fb_nest2")):
+                          ("MCCompose_gen_nest2.cfg", "fb_nest2"), ("MCCompose_gen_seg2.cfg", "seg2"), ("MCCompose_gen_seg3.cfg", "seg3"),
+                          ("MCCompose_gen_segfb.cfg", "seg_fb"), ("MCCompose_gen_segn.cfg", "seg_n")):
         beh, _ = models.behaviours("MCComposeGen", cfgname, limit, seed)
+        seg = "seg" in comp
         for h in beh:
-            cmds = ["fill 1 16", "fill 2 24", "fill 3 800"]
+            cmds = ["fill 1 48", "fill 2 80", "fill 3 800"] if seg else ["fill 1 16", "fill 2 24", "fill 3 800"]
             exp = []
             for c in h:
                 if c["op"] == "an":
